@@ -1118,6 +1118,8 @@ def run_suffix(ctx, fam):
         log('[C09] stage model of the sort driver (DivSufSort.tla: classify, offsets, B* copy, induce B, induce A with their contracts)')
         vlib.tlc_mc(ctx, 'DivSufSortMC.tla', 'DivSufSortMC_T.cfg' if t else 'DivSufSortMC.cfg', workers='16', timeout=1500)
         vlib.tlc_mc(ctx, 'DivSufSortMC.tla', 'DivSufSortMC_bT.cfg' if t else 'DivSufSortMC_b.cfg', workers='16', timeout=1500)
+        log('[C09] rank sort by prefix doubling (TrSortRounds.tla: consistent refinement, reads in range, finishes)')
+        vlib.tlc_mc(ctx, 'TrSortRounds.tla', 'TrSortRounds_T.cfg' if t else 'TrSortRounds.cfg', workers='16', timeout=1500)
         log('[C09] LCP by the phi algorithm (LcpPhi.tla: the carried length is sound, the table is the definition)')
         vlib.tlc_mc(ctx, 'LcpPhi.tla', 'LcpPhi_T.cfg' if t else 'LcpPhi.cfg', workers='16', timeout=1500)
         log('[C09] enumerating short texts (TLC) and structured texts (seeded)')
